@@ -273,6 +273,13 @@ def model_save_quantized_weights(model, filename=None, custom_objects={}):
       elif any(isinstance(layer, t) for t in [QSimpleRNN, QLSTM, QGRU]):
         qs = layer.get_quantizers()[:-1]
         ws = layer.get_weights()
+      elif layer.__class__.__name__ == "QBatchNormalization":
+        # gamma / beta only exist with scale / center: keep the quantizers
+        # aligned with the weights that are present.
+        qs = [q for q, used in zip(
+            layer.get_quantizers(), [layer.scale, layer.center, True, True])
+              if used]
+        ws = layer.get_weights()
       else:
         qs = layer.get_quantizers()
         ws = layer.get_weights()
